@@ -39,7 +39,7 @@ NoDup(c) == Cardinality(ToSet(c.nondust)) = Len(c.nondust) /\ Cardinality(ToSet(
 TraceInit ==
   /\ l = 1 /\ nodeOf = <<>> /\ saved = <<>> /\ everRAA = <<>> /\ projB = <<>>
   /\ fw = [adds |-> {}, downFul |-> {}, upClaimed |-> {}, settledNow |-> {}, base0 |-> <<>>, pol |-> <<>>,
-           shut |-> {}, closeFee |-> <<>>, newInfl |-> {}, crashed |-> {}, liveAtCrash |-> {}, snapKnows |-> <<>>, needSent |-> {}, owed |-> {}, settled |-> FALSE, pays |-> {}, claimedEv |-> {}, sentEv |-> {}, failEv |-> {}, lastMgr |-> <<>>, cuid |-> <<>>, failedNow |-> {}, ruid |-> <<>>, claimable |-> <<>>, mustClaim |-> {}, mustAcc |-> {}, gs |-> <<>>, reloaded |-> {}, dirty |-> {}]
+           shut |-> {}, closeFee |-> <<>>, newInfl |-> {}, crashed |-> {}, liveAtCrash |-> {}, snapKnows |-> <<>>, needSent |-> {}, owed |-> {}, settled |-> FALSE, pays |-> {}, claimedEv |-> {}, sentEv |-> {}, failEv |-> {}, lastMgr |-> <<>>, cuid |-> <<>>, failedNow |-> {}, ruid |-> <<>>, claimable |-> <<>>, mustClaim |-> {}, mustAcc |-> {}, gs |-> <<>>, reloaded |-> {}, dirty |-> {}, evhead |-> <<>>]
   /\ par = <<>> /\ cnt = <<>> /\ hs = <<>> /\ fees = <<>> /\ feeBase = <<>> /\ base = <<>>
   /\ link = <<>> /\ redo = <<>> /\ lastCS = <<>> /\ order = <<>> /\ pts = <<>> /\ mon = <<>>
   /\ ownExp = <<>>
@@ -72,7 +72,7 @@ TOpen ==
         /\ saved' = <<>> /\ projB' = <<>>
         /\ fw' = [adds |-> {}, downFul |-> {}, upClaimed |-> {}, settledNow |-> {},
                    base0 |-> [e \in E |-> IF e[2] = 1 THEN cs[ch(e[1])].bal_a_msat ELSE cs[ch(e[1])].bal_b_msat],
-                   pol |-> R.policy, shut |-> {}, closeFee |-> [c \in C |-> 0], newInfl |-> {}, crashed |-> {}, liveAtCrash |-> {}, snapKnows |-> <<>>, needSent |-> {}, owed |-> {}, settled |-> FALSE, pays |-> {}, claimedEv |-> {}, sentEv |-> {}, failEv |-> {}, lastMgr |-> <<>>, cuid |-> <<>>, failedNow |-> {}, ruid |-> <<>>, claimable |-> <<>>, mustClaim |-> {}, mustAcc |-> {}, gs |-> <<>>, reloaded |-> {}, dirty |-> {}]
+                   pol |-> R.policy, shut |-> {}, closeFee |-> [c \in C |-> 0], newInfl |-> {}, crashed |-> {}, liveAtCrash |-> {}, snapKnows |-> <<>>, needSent |-> {}, owed |-> {}, settled |-> FALSE, pays |-> {}, claimedEv |-> {}, sentEv |-> {}, failEv |-> {}, lastMgr |-> <<>>, cuid |-> <<>>, failedNow |-> {}, ruid |-> <<>>, claimable |-> <<>>, mustClaim |-> {}, mustAcc |-> {}, gs |-> <<>>, reloaded |-> {}, dirty |-> {}, evhead |-> <<>>]
 
 \* not part of the commitment protocol; `warning` / `disconnect_peer` ask the transport to drop the
 \* peer (the harness then disconnects, as PeerManager would) -- an `error` is never acceptable
@@ -424,7 +424,10 @@ TProj ==
         G12(b.out_cap = R.out_cap /\ b.in_cap = R.in_cap /\ b.n_in = R.n_in /\ b.n_out = R.n_out /\ b.ready = R.ready
             \* ... and everything else a user can read about the channel: type, ids and aliases, reserves, limits, the
             \* peer's forwarding terms, the user's configuration, feerate, shutdown state (one interned value)
-            /\ b.static = R.static)
+            /\ b.static = R.static
+            \* ... the send limits, every pending HTLC as the user is shown it (id, amount, expiry, hash, stage, dust or not)
+            \* and the node's recent payments (interned values)
+            /\ b.limit = R.limit /\ b.min = R.min /\ b.dyn = R.dyn /\ b.pays = R.pays)
 
 \* ---- the user claims / gives up a payment it was shown.  A node re-read from what it wrote reacts to the call like
 \* the original (C12): a payment shown as claimable before a clean reload, and claimed below its advertised
@@ -469,6 +472,15 @@ TBcastUpdate ==
   /\ IsEvent("bcast_update") /\ UNCHANGED <<cvars, nodeOf, saved, everRAA, projB>>
   /\ fw' = [fw EXCEPT !.gs = [k \in DOMAIN @ \cup {<<R.node, R.chan>>} |->
                                  IF k = <<R.node, R.chan>> THEN [GsOf(k) EXCEPT !.ann = R.enabled] ELSE @[k]]]
+
+\* ---- the event at the head of a node's queue right before a clean shutdown's write and right after the re-read (C12:
+\* "payments and events"): an event of a kind the library keeps across restarts comes back exactly as it was shown
+\* (one interned value per distinct rendering; 0 = empty queue / a kind that is not kept)
+EvHeadOf(n) == IF n \in DOMAIN fw.evhead THEN fw.evhead[n] ELSE 0
+TEvHead ==
+  /\ IsEvent("evhead") /\ UNCHANGED <<cvars, nodeOf, saved, everRAA, projB>>
+  /\ R.after_reload => G12(EvHeadOf(R.node) = 0 \/ R.id = EvHeadOf(R.node))
+  /\ fw' = [fw EXCEPT !.evhead = [n \in DOMAIN @ \cup {R.node} |-> IF n = R.node THEN R.id ELSE @[n]]]
 
 TOther ==
   /\ l <= Len(Rec) /\ Rec[l].ev \in {"forward", "intercept_fwd", "intercept_fail", "signer", "fee", "block", "persist_mode", "restarted", "close", "open_extra", "pause_flush", "flush", "hold_events", "settle_chain", "mine_skipped", "sweeper_track_failed", "config"}
@@ -547,7 +559,7 @@ TFin ==
                                     {a \in fw.adds : a.node = n /\ a.dir = "in"})
                IN gotIn >= paidOut)
 
-TraceNext == TTick \/ TBcastUpdate \/ TClaimOp \/ TSweeper \/ TForceClose \/ TSettled \/ TEventRefused \/ TFin \/ TScorer \/ TExtra \/ TOpen \/ TMsg \/ TDeliver \/ TPersist \/ TComplete \/ TSend \/ TDisconnect \/ TReconnect
+TraceNext == TTick \/ TEvHead \/ TBcastUpdate \/ TClaimOp \/ TSweeper \/ TForceClose \/ TSettled \/ TEventRefused \/ TFin \/ TScorer \/ TExtra \/ TOpen \/ TMsg \/ TDeliver \/ TPersist \/ TComplete \/ TSend \/ TDisconnect \/ TReconnect
              \/ TEvent \/ TOther \/ TMgrSnap \/ TCrash \/ TBroadcast \/ TProj
 
 TraceSpec == TraceInit /\ [][TraceNext]_tvars
